@@ -5,7 +5,7 @@ From Acme.C04 Require Import ProofsTac.
 (* Attaching / detaching interfaces rewrites the four maps of buses and the parent link of
    interfaces; everything else is framed once here. *)
 Definition bus_np_core (B : bus_rec) : bus_rec :=
-  B <| b_nodeInts := ∅ |> <| b_nodeNames := ∅ |> <| b_nodeIDs := ∅ |> <| b_static := ∅ |>.
+  B <| b_nodeInts := ∅ |> <| b_nodeNames := ∅ |> <| b_nodeIDs := ∅ |> <| b_static := ∅ |> <| b_type := 0%Z |>.
 Definition iface_par_core (Ii : iface_rec) : iface_rec := Ii <| i_parent := None |>.
 
 Lemma core_lookup' {A} (core : A → A) (m' m : gmap handle A) :
@@ -136,7 +136,7 @@ Proof.
     destruct (inv_sent_down s Hinv _ _ _ HI Hm) as (M0 & ? & ?). by simplify_eq. }
   assert (∀ m M, m ∈ sent → msgs s !! m = Some M → m_hasStatic M = true → b_static B !! m_static M = None) as Hnodup.
   { intros m M Hm HM Hst. pose proof (flat_map_nil _ _ Herrs m Hm) as He. cbn in He. rewrite HM in He.
-    unfold addni_msg_err in He. destruct (_ <? _)%Z; [done|]. rewrite Hst in He.
+    unfold addni_msg_err in He. destruct (too_big B (m_size M)); [done|]. rewrite Hst in He.
     by destruct (b_static B !! m_static M). }
   assert (NoDup (static_of (msgs s) sent).*1) as Hnd.
   { apply NoDup_static_of; [apply NoDup_elements|].
